@@ -400,7 +400,8 @@ CommitExact == [][(bopen /\ ~bopen' /\ last'.a = "commit") =>
                      /\ contents' = bcontents
                      /\ (lost = {} => Stored(root') \subseteq db')
                      /\ (~prune => db \subseteq db')
-                     /\ (~prune /\ lost = {} => (db' \ saved.db) \subseteq Stored(root'))]_vars
+                     /\ (lost = {} /\ "lose" \notin Features /\ "second" \notin Features
+                            => (db' \ saved.db) \subseteq Stored(root'))]_vars
 AbortRestores == [][(bopen /\ ~bopen' /\ last'.a \in {"abort", "commitfail"}) =>
                        /\ root' = saved.root /\ contents' = saved.contents /\ rc' = saved.rc
                        /\ (last'.a = "abort" /\ lost' = {} /\ "lose" \notin Features
